@@ -98,6 +98,26 @@ func genTroublePlan(r *rand.Rand) *ProxyPlan {
 	p.DefaultAgeS = []int64{1, 60}[r.IntN(2)]
 	p.Pol = genPolicy(r, true)
 	p.Pol.MaxSteps = 12000
+	if r.IntN(8) == 0 {
+		// A revalidation that takes its time, and what happens to the entry meanwhile: the stored
+		// response goes stale; one client's conditional request is answered 304 only after a few
+		// seconds; in between the content changes and a Range request, which this origin answers in
+		// full, stores the new version. Later requests show under which lifetime that version runs.
+		p.MaxSize = 1 << 40
+		p.DefaultAgeS = 60
+		p.Pol.AdvanceP = 0
+		d := int64(2000 + r.IntN(3)*1500)
+		rs := PRes{Host: "origin.test", Path: "/t0", Size: []int{10, 3000}[r.IntN(2)], ETag: "strong", CC: []string{"max-age=1"}, CondDelayMs: d, LastMod: r.IntN(2) == 0}
+		t0 := int64(2000)
+		rs.BumpAtMs = []int64{t0 + 300 + int64(r.IntN(300))}
+		p.Res = []PRes{rs}
+		p.Clients = [][]PReq{
+			{{Res: 0}, {Res: 0, AtMs: t0}}, // stores v1; revalidates it when stale (the slow 304)
+			{{Res: 0, AtMs: t0 + 800, Range: []string{"bytes=0-4", "bytes=2-"}[r.IntN(2)]}}, // answered 200 with v2, which is stored
+			{{Res: 0, AtMs: t0 + d + 2500}, {Res: 0, AtMs: t0 + d + 30000}, {Res: 0, AtMs: t0 + d + 90000}},
+		}
+		return p
+	}
 	sizes := []int{0, 10, 3000, 40000}
 	nres := 1 + r.IntN(3)
 	maxBody := 0
